@@ -271,8 +271,17 @@ def run_driver(case_heads):
     if not case_heads:
         return []
     inp = "\n".join(case_heads) + "\n"
+    def big_stack():
+        # the extracted functions are the model's structural recursions: not tail recursive,
+        # so long lists (a day of sub-ticks) need a deep native stack
+        import resource
+        try:
+            resource.setrlimit(resource.RLIMIT_STACK, (resource.RLIM_INFINITY, resource.RLIM_INFINITY))
+        except (ValueError, OSError):
+            soft, hard = resource.getrlimit(resource.RLIMIT_STACK)
+            resource.setrlimit(resource.RLIMIT_STACK, (hard, hard))
     p = subprocess.run([os.path.join(OCAML, "driver")], input=inp, stdout=subprocess.PIPE,
-                       stderr=subprocess.PIPE, text=True, timeout=3600)
+                       stderr=subprocess.PIPE, text=True, timeout=3600, preexec_fn=big_stack)
     outs = p.stdout.split("\n")
     if outs and outs[-1] == "":
         outs.pop()
